@@ -294,3 +294,26 @@ fn ctx_require_without_cycle_is_reserved() {
   });
   ::std::mem::forget(pie);
 }
+
+/// C05 with a query history: an earlier POSITIVE reachability query (resolved through the later-inserted child while a
+/// sibling is still pending on the DFS stack) must not influence the hidden-dependency check that follows.
+/// A = P(4) requires B = Z and C = Y (in that order); Y requires W; Z requires W. X reads R (written by W) without any path to W.
+//@h props=C05 tier=quick unwind=14 stubs=sort,boxslice timeout=900 fieldsens=1024 expect_fail="Hidden dependency; resource"
+fn ctx_hidden_read_after_positive_query_aborts() {
+  let mut pie = Pie::with_tracker(());
+  pie.resource_state_mut::<Cell>().set(CellState { v: CUR });
+  let mut s = pie.new_session();
+  let si = &mut s.0;
+  let n = nodes(si);
+  let a = si.store.get_or_create_task_node(&P(4));
+  let _ = si.store.add_dependency(&n.w, &n.r, rdep(0, M_EXACT).into_write());
+  req(si, &n.z, &n.w, 2, false);
+  req(si, &n.y, &n.w, 2, false);
+  req(si, &a, &n.z, 3, false);
+  req(si, &a, &n.y, 1, false);
+  assert!(si.store.contains_transitive_task_dependency(&a, &n.w), "harness: positive query (A reaches W)");
+  assert!(!si.store.contains_transitive_task_dependency(&n.x, &n.w), "C11/C05 reachability does not depend on earlier queries");
+  si.current_executing_task = Some(n.x);
+  let r = si.read(&Cell(0), ModeChecker { mode: M_EXACT });
+  assert!(false, "MUST-ABORT: a hidden-dependency read returned (after an unrelated positive reachability query)");
+}
